@@ -16,16 +16,16 @@ and the obvious reference bookkeeping: the contents of every target (folded from
 targets themselves) and the selected target (from the `sel=` tokens of the input).  It does not know
 about links, subscriptions or transitions.
 
-Findings of the real code (reported through the last stream, tags in the messages):
+Finding of the real code (raised by the last stream only, tag in the message):
   [C13-A]  `delta_value()` (`In<TSS/TSD>::delta()`) read through a reference in a retarget cycle is the
            target's own delta storage: no value when the target did not tick, only the target's own
            delta when it did - not the difference between old and new contents that the key accessors
-           and `record` report.
-  [C13-B]  a key that the previously selected set/dict removed in an EARLIER cycle (its last tick) is
-           reported as removed again when the reference is retargeted (pending-erase slot counted as
-           published).
-In the other streams these two deviations are tolerated (the rest of the rule is still enforced) so
-that they do not mask anything else.
+           and `record` report.  The other streams do not judge `delta_value()` in retarget cycles, so
+           that a failure there is never classified under this fingerprint.
+Repaired (fix: /verif/fixes/c13_b.patch): former finding C13-B - a key that the previously selected
+set/dict removed in an EARLIER cycle was reported as removed again at a retarget (pending-erase slot
+counted as published).  The pattern is generated on purpose (scenario "removal-then-retarget", corpus
+10_c13b_regression.txt); if it comes back it is an ordinary `[removed]` / `[record]` violation.
 """
 import os, re
 from vlib import Case, Stream, BUILD, model_cmd
@@ -39,8 +39,8 @@ THEOREMS = [
     "HgVerif.RefLink.ref_unselected_silent", "HgVerif.RefLink.ref_evaluated_cause",
     "HgVerif.RefLink.ref_reads_target", "HgVerif.RefLink.ref_evaluated_when_target_ticks",
     "HgVerif.RefLink.ref_own_delta_when_no_retarget",
-    "HgVerif.RefLink.ref_retarget_samples", "HgVerif.RefLink.ref_retarget_samples_keyed_partial",
-    "HgVerif.RefLink.ref_retarget_keyed_full_refuted", "HgVerif.RefLink.ref_delta_value_keyed_refuted",
+    "HgVerif.RefLink.ref_retarget_samples", "HgVerif.RefLink.ref_retarget_samples_keyed",
+    "HgVerif.RefLink.pubRPreFix_reports_stale", "HgVerif.RefLink.ref_delta_value_keyed_refuted",
     "HgVerif.RefLink.cycle_sched_nil", "HgVerif.RefLink.reach_sched", "HgVerif.RefLink.applyDelta_keys_spec",
 ]
 CXX_TARGETS = ["hgv_ref"]
@@ -65,9 +65,10 @@ ASSUMPTIONS = ["simulation mode, dense 'testing' record/replay backend, start ti
                "every cross-boundary notification already carries the parent's current time (a probe build that "
                "aborts on an earlier time never fired); evaluations of an all-Unchecked consumer inside a nested "
                "graph at child start / at a boundary REF tick are known finding F2 (C09) and are reproduced, not judged",
-               "ref_retarget_samples_keyed_partial carries the hypothesis that the previous target ticked in the "
-               "retarget cycle or holds no pending-erase slot from its last tick; without it the statement is "
-               "refuted in the model (ref_retarget_keyed_full_refuted) and on the implementation ([C13-B])",
+               "ref_retarget_samples_keyed (old-vs-new difference for sets/dicts) holds for every history of the code "
+               "WITH fixes/c13_b.patch; the pre-fix published-key test is kept as pubRPreFix with the lemma "
+               "pubRPreFix_reports_stale (why the fix was needed); its only hypothesis besides reachability is the "
+               "delta discipline above",
                "delta_value() of keyed shapes is proved NOT to be the sampled difference "
                "(ref_delta_value_keyed_refuted, [C13-A]); the key accessors and record are"]
 TECHNIQUE = ("Lean 4 proof (subscription invariant over every reachable state of the link transition system, "
@@ -79,8 +80,8 @@ LEVEL_TEXT = ("Kernel-checked for ALL retarget/tick histories of the contract-le
               "references evaluate nobody; every evaluation reads value/validity/own delta of the current target and "
               "happens whenever that target ticks; a retarget to a valid target evaluates every consumer in that cycle "
               "with modified=true and the sampled value; for sets/dicts the reported difference equals old-vs-new "
-              "contents under a stated side condition, and the unrestricted statement is refuted (finding C13-B), as "
-              "is 'delta_value() is the difference' (finding C13-A). The model is tied to the code by running the real "
+              "contents for every history (after the repair of finding C13-B); 'delta_value() is the difference' is "
+              "refuted (known finding C13-A). The model is tied to the code by running the real "
               "operators and consumers on generated histories.")
 LEVEL_NOTE = ("PARTIAL by design: the model is the linking contract (linking_strategies.rst 'Sampled rebinds' + the "
               "observable behaviour of the anchored files), not alternative.cpp's attachment bookkeeping; switch_, "
@@ -235,12 +236,6 @@ def exhaustive(rng, shapes, length, start_idx):
 
 
 DIRECTED_FINDINGS = [
-    # [C13-B] TSS: a removed 2 in cycle 1; the retarget in cycle 4 reports -2 again
-    ["cfg tss 2 direct", "c sel=a a=+1,+2", "c a=-2", "c b=+5", "c", "c sel=b", "run"],
-    ["cfg tsd 2 direct", "c sel=a a=1:1,2:2", "c a=-2", "c b=5:5", "c", "c sel=b", "run"],
-    # the same towards a target holding nothing in common, through the nested stages and if_cmp
-    ["cfg tss 3 inner", "c sel=b b=+1,+2,+3", "c b=-1,-3", "c a=+4", "c sel=a", "run"],
-    ["cfg tss 1 pass cmp", "c sel=c c=+1,+2", "c c=-1", "c", "c sel=a a=+2", "run"],
     # [C13-A] pure retarget and retarget + tick of the new target
     ["cfg tss 2 direct", "c sel=a a=+1,+2 b=+2,+3", "c sel=b", "c sel=a a=+4", "run"],
     ["cfg tsd 2 direct", "c sel=a a=1:10,2:20 b=2:21,3:30", "c sel=b", "c sel=a a=4:40", "run"],
@@ -485,13 +480,11 @@ def walk(stream, case, out):
             if plus != exp_added:
                 bad.append("[added] cycle %d: %s sees added %s, expected %s" % (cyc, name, sorted(plus), sorted(exp_added)))
             if minus != exp_removed:
+                extra = ""
                 if exp_removed <= minus <= exp_removed | stale:
-                    if strict:
-                        bad.append("[C13-B] cycle %d: %s is told removed=%s but old contents minus new contents is %s "
-                                   "(the extra keys were removed by the old target in an earlier cycle)" %
-                                   (cyc, name, sorted(minus), sorted(exp_removed)))
-                else:
-                    bad.append("[removed] cycle %d: %s sees removed %s, expected %s" % (cyc, name, sorted(minus), sorted(exp_removed)))
+                    extra = " (the extra keys were removed by the old target in an earlier cycle: pending-erase slot)"
+                bad.append("[removed] cycle %d: %s sees removed %s, old contents minus new contents is %s%s" %
+                           (cyc, name, sorted(minus), sorted(exp_removed), extra))
             if shape == "tsd" and tilde != exp_mod:
                 bad.append("[modified-keys] cycle %d: %s sees modified keys %s, expected %s" % (cyc, name, sorted(tilde), sorted(exp_mod)))
             exp_d = delta_text(shape, exp_added, exp_removed, {k: cur.items[k] for k in exp_mod})
@@ -506,16 +499,11 @@ def walk(stream, case, out):
         rs = head.get("rs", "-")
         if must:
             if shape == "ts":
-                exp_rs, alt = str(cur.items[0]), None
+                exp_rs = str(cur.items[0])
             else:
                 exp_rs = delta_text(shape, exp_added, exp_removed, {k: cur.items[k] for k in exp_mod})
-                alt = delta_text(shape, exp_added, exp_removed | stale, {k: cur.items[k] for k in exp_mod}) if stale else None
             if rs != exp_rs:
-                if alt is not None and rs == alt:
-                    if strict:
-                        bad.append("[C13-B] cycle %d: record through the reference stored %s, old-vs-new contents is %s" % (cyc, rs, exp_rs))
-                else:
-                    bad.append("[record] cycle %d: record through the reference stored %s, expected %s" % (cyc, rs, exp_rs))
+                bad.append("[record] cycle %d: record through the reference stored %s, expected %s" % (cyc, rs, exp_rs))
         elif rs != "-":
             ok = False
             if retarget and not new_valid and shape != "ts":
